@@ -1,7 +1,7 @@
 (* Reference semantics for C15: the characters a FROM expression permits (X.680 51.7, read with the
    operators it was written with) and the characters an emitted annotation denotes. *)
 From Coq Require Import ZArith NArith List Bool.
-Require Import RasnV.Model.Base RasnV.Model.PerVisible RasnV.Model.Alphabet.
+Require Import RasnV.Model.Base RasnV.Model.PerVisible RasnV.Gen.T03 RasnV.Model.Alphabet.
 Import ListNotations.
 
 Definition str_char (v : option aval) : option N := match v with Some (VStr [c]) => Some c | _ => None end.
@@ -52,4 +52,32 @@ Definition subset_chars_in (cs : charset) (s : subset) : bool :=
   | SSingle c => existsb (N.eqb c) cs
   | SRange (Some f) (Some t) => existsb (N.eqb f) cs && existsb (N.eqb t) cs
   | _ => false
+  end.
+
+(* ---- the base alphabets as X.680 defines them (41.4 table 8 / 9, ISO 646 for VisibleString and IA5String) *)
+Definition in_rng (lo hi c : N) : bool := N.leb lo c && N.leb c hi.
+Definition x680_alphabet (t : string_type) (c : N) : option bool :=
+  match t with
+  | NumericString => Some (N.eqb c 32 || in_rng 48 57 c)
+  | PrintableString =>
+      Some (in_rng 65 90 c || in_rng 97 122 c || in_rng 48 57 c || N.eqb c 32 || in_rng 39 41 c || in_rng 43 47 c
+            || N.eqb c 58 || N.eqb c 61 || N.eqb c 63)
+  | VisibleString => Some (in_rng 32 126 c)
+  | IA5String => Some (in_rng 0 127 c)
+  | _ => None
+  end.
+
+Fixpoint nodupb (l : list N) : bool :=
+  match l with [] => true | x :: r => negb (existsb (N.eqb x) r) && nodupb r end.
+
+(* the table of the type lists exactly that alphabet, each character once (checked for every code point below 256;
+   every entry of the four tables is below 256) *)
+Definition table_matches (t : string_type) : bool :=
+  match x680_alphabet t 0 with
+  | None => true
+  | Some _ =>
+      let cs := character_set t in
+      forallb (fun c => N.ltb c 256) cs && nodupb cs
+      && forallb (fun n => let c := N.of_nat n in
+                           match x680_alphabet t c with Some b => Bool.eqb (existsb (N.eqb c) cs) b | None => true end) (seq 0 256)
   end.
